@@ -68,6 +68,9 @@ def macros(quick):
     LL = LIST(LIST(INT))
     ms += [('DIIP', 2, (PUSH(LL, lst(lst(), lst())),)), ('DIIP', 3, (PUSH(LL, lst(lst(i(1), i(2)), lst(i(3)))), ('SIZE',))),
            ('IF_SOME', (DROP(1), PUSH(LL, lst(lst(), lst())), ('SIZE',), ('INT',)), (PUSH(INT, i(-5)),))]
+    # bodies that themselves begin with a DIP and go on after it (an expansion must not merge or drop anything of the body)
+    ms += [('DIIP', 2, (DIP(1, DROP(1)), PUSH(INT, i(9)))), ('DIIP', 3, (DIP(1, PUSH(INT, i(9))), DROP(1))), ('DIIP', 2, (DIP(2, PUSH(INT, i(9))), ('SWAP',), DROP(1))),
+           ('DIIP', 2, (DIP(1, DROP(1)),))]
     for n in range(2, 6 if quick else 7):
         for t in trees(n):
             ms += [('PAIR', t), ('UNPAIR', t)]
@@ -83,14 +86,25 @@ def body_text(body):
     return micheline_to_michelson([terms.instr_json(x) for x in body], inline=True)
 
 
-def run_macro(name, bodies, st):
+_EXPANSIONS = {}
+
+
+class ExpansionChanged(Exception):
+    pass
+
+
+def run_macro(name, bodies, st, annot=''):
     from pytezos.context.impl import ExecutionContext
     from pytezos.michelson.instructions.base import MichelsonInstruction
     from pytezos.michelson.micheline import MichelsonRuntimeError
     from pytezos.michelson.parse import michelson_to_micheline
     from pytezos.michelson.stack import MichelsonStack
-    text = name + ''.join(' ' + body_text(b_) for b_ in bodies)
+    text = name + annot + ''.join(' ' + body_text(b_) for b_ in bodies)
     expr = michelson_to_micheline(text)
+    # expansion is a function of the macro text: the same text expands to the same code whatever was expanded before (and earlier results do not change afterwards)
+    dumped = json.dumps(expr, sort_keys=True)
+    if _EXPANSIONS.setdefault(text, dumped) != dumped:
+        raise ExpansionChanged('`%s` expanded to %s earlier in this process and to %s now' % (text, _EXPANSIONS[text], dumped))
     stack = MichelsonStack([vmreplay.make_item(t, v) for (t, v) in st])
     try:
         MichelsonInstruction.match(expr).execute(stack, [], ExecutionContext())
@@ -103,13 +117,32 @@ def run_macro(name, bodies, st):
 
 
 def compare(ctx, name, bodies, st, res):
+    case = {'name': name, 'bodies': to_json(bodies), 'st': to_json(st), 'res': to_json(res)}
     try:
         got, text = run_macro(name, bodies, st)
+    except ExpansionChanged as e:
+        ctx.mismatch('C19:expansion-depends-on-history', str(e), case)
+        return False
     except Exception as e:      # parser refused the macro name
         got, text = ('err', None, 'parser: %s %s' % (type(e).__name__, str(e)[:200])), name
     status = {'ok': 'running', 'fail': 'fail', 'err': 'err'}[res[0]]
     cls = vmreplay.classify(status, res[1] if res[0] == 'ok' else (), res[1] if res[0] == 'fail' else (), got)
     if cls is None:
+        # the same macro carrying a variable annotation: annotations name results, they do not change the effect
+        if name.startswith(('C', 'SET_C', 'MAP_C', 'DU', 'PA', 'PP', 'UNP')) and not bodies or name.startswith('MAP_C'):
+            try:
+                got2, text2 = run_macro(name, bodies, st, annot=' @v')
+                cls2 = vmreplay.classify(status, res[1] if res[0] == 'ok' else (), res[1] if res[0] == 'fail' else (), got2)
+            except ExpansionChanged as e:
+                ctx.mismatch('C19:expansion-depends-on-history', str(e), case)
+                return False
+            except Exception as e:   # noqa
+                cls2 = ('status', 'parser: %s %s' % (type(e).__name__, str(e)[:200]))
+                text2 = name + ' @v'
+            ctx.count(('annotated', name, bodies, st), nontrivial=True)
+            if cls2 is not None:
+                ctx.mismatch('C19:annotated:%s' % cls2[0], 'macro `%s` on %s: %s (without the annotation it has the reference effect)' % (text2, json.dumps(to_json(st)), cls2[1]), case)
+                return False
         return True
     fam = name if not name.startswith(('P', 'UNP', 'C', 'SET_C', 'MAP_C', 'D')) or name in ('CMPEQ',) else ''.join(ch for ch in name if ch not in 'AID')[:8]
     kind = 'UNPAIR-tree' if name.startswith('UNP') else 'PAIR-tree' if name.startswith('P') else 'SET_CADR' if name.startswith('SET_C') else \
@@ -125,7 +158,7 @@ def run(ctx):
                 'DII..P and DUU..P depth 2..4(5); every PAIR tree with 2..4 (6) leaves and its UNPAIR; every C[AD]+R / SET_C[AD]+R / MAP_C[AD]+R path of length 1..3 (4)) on every '
                 'stack of its pool. Leg A: TLC computes the direct meaning and checks the laws (UNPAIR o PAIR = id, SET then GET, MAP = SET of body, CMPop = COMPARE;op). '
                 'Leg B: the macro text goes through the pytezos parser/expander and the interpreter; stack or failure must equal the direct meaning')
-    ctx.assumptions = ['bodies are printed with pytezos\' formatter (verified by C18)', 'annotated macro variants (e.g. PAIR %a %b) are not covered']
+    ctx.assumptions = ['bodies are printed with pytezos\' formatter (verified by C18)', 'annotated variants: the accessor / setter / mapper / DUP / PAIR-tree macros are also run with one variable annotation (@v), which must not change the effect; field-annotation variants (PAIR %a %b) are not covered', 'the expansion of every macro text is recorded and must be the same whenever the text is expanded again in the process']
     ms, depth = macros(ctx.quick)
     ints = [(S(INT, i(a)), S(INT, i(b_)), S(STR, s('rest'))) for a in (-1, 0, 1) for b_ in (-1, 0, 1)]
     bools = [(S(BOOL, T_), S(INT, i(3))), (S(BOOL, F_), S(INT, i(3)))]
